@@ -12,7 +12,7 @@ What the replay decides: "rustc accepts" - the real generator runs (build.rs of 
     all container and key positions; empty object / union; docs and deprecation),
   * a services IR (every PLAIN type as path / query single-optional-list-set / header parameter, 17 body and return
     shapes incl. binary and aliases, auth kinds, size limits, safety markers, regex paths, deprecated endpoints, errors),
-and the whole module forest is type-checked by rustc in one `cargo check`.  The 103-shape zoo of harness/vgen is compiled
+and the whole module forest is type-checked by rustc in one `cargo check`.  The 115-shape zoo of harness/vgen is compiled
 as well (C02).  Known generator limitations are compiled separately and reported as KNOWN-FINDING while they persist.
 """
 import json
